@@ -142,6 +142,9 @@ std::vector<int> LegalizerBase::computeCellOrder(float weightX,
 }
 
 int LegalizerBase::closestRow(int y) const {
+  if (rows_.empty()) {
+    throw std::runtime_error("No row left to place the cells");
+  }
   auto it = std::lower_bound(rows_.begin(), rows_.end(), y,
                              [](Rectangle r, int v) { return r.minY < v; });
   if (it == rows_.end()) {
